@@ -124,6 +124,8 @@ for a in ("lll", "llr", "lrl", "lrr", "rll", "rlr", "rrl", "rrr"):
 ob("O-C09-ops", ["C09"], C, "c09_math_dispatch", "ops::Math::run applies exactly the operator its variant names to (l, r) in that order, and as_str is the manual's symbol, for every operator and all operands (recording operand type)", [CORE + "ops.rs::Math::run", CORE + "ops.rs::Math::as_str"])
 ob("O-C08-ops", ["C08"], C, "c08_cmp_dispatch", "ops::Cmp::run is the comparison its variant names (<, <=, >, >=, ==, !=) on an ordered type, for all pairs, and as_str is the manual's symbol", [CORE + "ops.rs::Cmp::run", CORE + "ops.rs::Cmp::as_str"])
 ob("O-C15-verify-last", ["C15"], C, "c15_verify_last", "Parser::verify_last accepts exactly when what remains of a delimited block is its closing delimiter alone (or nothing at the top level): leftover tokens before the delimiter are an error, never silently dropped", [CORE + "load/parse.rs::Parser::verify_last"], label="bounded", bound="remaining token lists of length 0..=2 over three token texts x three expected delimiters, enumerated concretely")
+for nm, what in (("empty", "the empty comment, plain white space, no comment"), ("bs", "comment bodies starting with a backslash"), ("sp", "comment bodies starting with a space"), ("nl", "comment bodies starting with a newline"), ("cr", "comment bodies starting with a carriage return"), ("a", "comment bodies starting with a letter")):
+    ob(f"O-C15-space-{nm}", ["C15"], C, f"c15_space_{nm}", f"Lexer::space skips exactly white space and comments, a comment ending at the first line ending that is not immediately preceded by an odd number of backslashes (CR before LF not counting): {what}", [CORE + "load/lex.rs::Lexer::space"], label="bounded", bound="comment bodies of length <= 3 over { backslash, space, LF, CR, letter }, followed by a fixed two-line tail; enumerated concretely (string literals)", timeout=1200, tier="quick" if nm in ("bs", "empty") else "thorough")
 ob("O-C16-vars", ["C16", "C01"], C, "c16_var_numbering", "Compiler::var with no live local binder: the returned index selects, in the run-time list Vars::new(globals ++ imported values), the last data import of that name owned by the current module, else the last command-line variable of that name; an undefined name is reported, never mis-indexed", [CORE + "compile.rs::Compiler::var"], label="bounded", bound="2 data imports x 2 owning modules, 2 global variables, names from a 2-letter alphabet, current module 0 or 1 (all symbolic)")
 ob("O-C01-binds", ["C01"], C, "c01_binds", "binds(sig, args) pairs the i-th signature kind (variable / filter) with the i-th argument id, in order", [CORE + "compile.rs::binds"], label="bounded", bound="<= 3 arguments, kinds and ids symbolic")
 ob("O-C03-peek", ["C03"], C, "c03_next_if_one", "next_if_one returns an element only under size_hint upper bound Some(1); pulls nothing when it declines because of the hint; never pulls an element it does not return (ghost pull counter on the upstream iterator)", [CORE + "box_iter.rs::next_if_one"], label="bounded", bound="upstream streams of length <= 3, every honest size hint")
@@ -152,6 +154,10 @@ OBS.append(dict(id="O-C01-env", properties=["C01"], backend="verus", spec="verus
 FM = "jaq-fmts/src/"
 ob("O-C14-cbor-neg", ["C14", "C05"], F, "c14_cbor_decode_negative", "CBOR decode: the real parse maps Header::Negative(n) to the integer -1 - n for every 64-bit argument n - a machine integer when it fits, else the big integer of that value", [FM + "read/cbor.rs::parse"], composes_dependency=True)
 ob("O-C14-cbor-pos", ["C14", "C05"], F, "c14_cbor_decode_positive", "CBOR decode: the real parse maps Header::Positive(n) to the integer n for every 64-bit argument n - a machine integer when it fits, else the big integer of that value", [FM + "read/cbor.rs::parse"])
+for fmt, what, firsts in (("csv", "the RFC 4180 quoting (surrounding quotes, doubled inner quotes)", ("empty", "quote", "comma", "nl", "cr", "a")), ("tsv", "the TSV escaping (backslash-n, -r, -t, -0, -backslash)", ("empty", "bs", "tab", "nl", "cr", "nul", "n", "a"))):
+    for f in firsts:
+        ob(f"O-C13-{fmt}-reader-{f}", ["C13", "C14", "C05"], F, f"c13_{fmt}_reader_{f}", f"the real {fmt.upper()} field reader inverts {what}: for every field content of length <= 2 over the format's metacharacters and a letter (first character: {f}), ended by end of input, the separator or a newline, it returns exactly that content, stops at the terminator and consumes nothing else", [FM + f"read/tabular.rs::{fmt}_field", FM + "read/tabular.rs::field"], label="bounded", bound="field contents of length <= 2 over the metacharacter alphabet, three terminators; enumerated concretely", timeout=900)
+
 CFG = {
     "trusted_base": [
         "Kani 0.68.0 (MIR->GOTO translation of the pinned nightly's core/alloc)",
@@ -198,7 +204,7 @@ CFG = {
         "C15": {
             "level": "proof",
             "explanation": "The operator table is finite: BinaryOp::precedence / associativity are compared with the manual's table for every pair of operators (all enum payloads symbolic): complete. The generic precedence-climbing engine is run on every operator sequence up to length 3 (quick) / 4 (thorough) over three abstract precedence levels and all associativity assignments and compared with the tree the table implies: bounded, exhaustive within the bound. Only complete obligations are counted as proved.",
-            "not_decided": "operator sequences longer than the bound (an inductive contract on climb1 is not within reach: Verus has no Peekable / iterator support, bounded unwinding on symbolic operators is exponential), the `as $x |` special case of Term::climb (its right operand extends to the end), atoms, postfix ? vs prefix -, path suffixes, object-entry and pattern shorthands, elif / missing else, string interpolation, def f($x): parser and compiler desugaring",
+            "not_decided": "operator sequences longer than the bound (an inductive contract on climb1 is not within reach: Verus has no Peekable / iterator support, bounded unwinding on symbolic operators is exponential), the `as $x |` special case of Term::climb (its right operand extends to the end), white space / comments beyond the enumerated bodies, the rest of the lexer (one symbolic byte exceeds 20 min), atoms, postfix ? vs prefix -, path suffixes, object-entry and pattern shorthands, elif / missing else, string interpolation, def f($x): parser and compiler desugaring",
         },
         "C16": {
             "level": "other",
